@@ -70,6 +70,17 @@ def _eval_index_expr(node: ast.AST, names: dict):
     return int(val)
 
 
+LAST_UNKNOWN: list[str] = []
+
+
+def _understood(ns):
+    """a plan with a call the recipe has no rule for is NOT a mismatch: the kernel is skipped (hand-written model + correspondence)"""
+    if any(op.startswith("unknown") for op, _ in ns):
+        what = LAST_UNKNOWN[-1] if LAST_UNKNOWN else "?"
+        raise Untranslatable(f"no translation rule for `{what[:60]}`")
+    return ns
+
+
 class Builder:
     def __init__(self, param_kinds: list[str]):
         self.nodes: list[tuple[str, list[int]]] = []
@@ -101,6 +112,7 @@ class Builder:
         return self.emit(name, args, res if ok else None)
 
     def unknown(self, what: str, args: list[int]) -> int:
+        LAST_UNKNOWN.append(what)
         return self.emit(f"unknown {zlib.crc32(what.encode()) % 1000}", args, None)
 
 
@@ -223,7 +235,50 @@ class Tr:
             return self.call(node)
         raise Untranslatable(f"expression `{ast.unparse(node)}`")
 
+    _LIB = None
+
+    @classmethod
+    def _lib_signatures(cls) -> dict:
+        """parameter names of the module-level functions of direct/data/transforms.py (the library helpers)"""
+        if cls._LIB is None:
+            cls._LIB = {}
+            try:
+                for st in parse_file(REPO / "direct/data/transforms.py").body:
+                    if isinstance(st, ast.FunctionDef):
+                        cls._LIB[st.name] = [a.arg for a in st.args.posonlyargs + st.args.args]
+            except Exception:  # noqa: BLE001
+                pass
+        return cls._LIB
+
+    def _normalise_call(self, node: ast.Call) -> ast.Call:
+        """library helper called with keywords -> the same call with positional arguments (by the helper's own signature);
+        `torch.unsqueeze(x, d)` / `torch.sum(x, d)` -> method form"""
+        f = node.func
+        nm = f.attr if isinstance(f, ast.Attribute) and isinstance(f.value, ast.Name) and f.value.id == "T" else \
+            f.id if isinstance(f, ast.Name) else None
+        if nm is not None and node.keywords and nm in self._lib_signatures():
+            params = self._lib_signatures()[nm]
+            bound = dict(zip(params, node.args))
+            extra = []
+            for k in node.keywords:
+                if k.arg is None or k.arg in bound or k.arg not in params:
+                    return node
+                bound[k.arg] = k.value
+            args = []
+            for p_ in params:
+                if p_ in bound and len(args) == params.index(p_):
+                    args.append(bound[p_])
+                elif p_ in bound:
+                    extra.append(ast.keyword(arg=p_, value=bound[p_]))
+            return ast.copy_location(ast.Call(func=f, args=args, keywords=extra), node)
+        if isinstance(f, ast.Attribute) and isinstance(f.value, ast.Name) and f.value.id == "torch" and f.attr in ("unsqueeze", "sum") \
+                and node.args:
+            return ast.copy_location(ast.Call(func=ast.Attribute(value=node.args[0], attr=f.attr, ctx=ast.Load()),
+                                              args=list(node.args[1:]), keywords=list(node.keywords)), node)
+        return node
+
     def call(self, node: ast.Call) -> int:
+        node = self._normalise_call(node)
         b, f = self.b, node.func
         # method-style calls on a tensor value
         if isinstance(f, ast.Attribute) and not (isinstance(f.value, ast.Name) and f.value.id in ("T", "torch", "self")):
@@ -242,7 +297,8 @@ class Tr:
             if f.attr == "sum":
                 # complex_multiplication(conjugate(S), w).sum(coil) == reduce_operator
                 inner = f.value
-                axis = self.info.const(node.args[0]) if node.args else None
+                axis = self.info.const(node.args[0]) if node.args else (
+                    self.info.const(self._kw(node, "dim")) if self._kw(node, "dim") is not None else None)
                 if (isinstance(inner, ast.Call) and self._fname(inner.func) in ("T.complex_multiplication", "complex_multiplication")
                         and len(inner.args) == 2 and isinstance(inner.args[0], ast.Call)
                         and self._fname(inner.args[0].func) in ("T.conjugate", "conjugate")
@@ -256,6 +312,13 @@ class Tr:
         name = self._fname(f)
         if name in ("T.complex_multiplication", "complex_multiplication") and len(node.args) == 2:
             a0, a1 = node.args
+            if isinstance(a1, ast.Call):
+                a1 = self._normalise_call(a1)
+            if isinstance(a0, ast.Call):
+                a0 = self._normalise_call(a0)
+            # cmul is commutative: `complex_multiplication(x.unsqueeze(coil), S)` is the same expansion
+            if (self._is(a1, SENS) and isinstance(a0, ast.Call) and isinstance(a0.func, ast.Attribute) and a0.func.attr == "unsqueeze"):
+                a0, a1 = a1, a0
             if (self._is(a0, SENS) and isinstance(a1, ast.Call) and isinstance(a1.func, ast.Attribute)
                     and a1.func.attr == "unsqueeze"):
                 x = self.expr(a1.func.value)
@@ -451,6 +514,7 @@ def _nodes(ns) -> str:
 
 
 def _plan(ns, outs) -> str:
+    _understood(ns)
     return "{ nodes := " + _nodes(ns) + ", outs := [" + ", ".join(map(str, outs)) + "] }"
 
 
@@ -668,9 +732,13 @@ def _c19_extra():
             out.append(f"/-- SKIPPED ({e}) -/\ndef {lean} : Plan := {_FALLBACK[lean]}\n")
     try:
         (n0, o0), bodies = cg_plans()
-        out.append(f"/-- translated from `{CG}`:`ConjGrad.cg` (statements before the loop) -/\n"
-                   f"def cg_init_plan : Plan :=\n  {_plan(n0, o0)}\n")
+        init_txt = _plan(n0, o0)
         arms = "\n".join(f"  | .{u} => {_plan(ns, outs)}" for u, (ns, outs, _) in bodies.items())
+        shapes_ = {u: s_ for u, (_, _, s_) in bodies.items()}
+        if any(s_[:4] + s_[5:] != shapes_["FR"][:4] + shapes_["FR"][5:] for s_ in shapes_.values()):
+            raise Untranslatable("cg: control skeleton differs between branches")
+        out.append(f"/-- translated from `{CG}`:`ConjGrad.cg` (statements before the loop) -/\n"
+                   f"def cg_init_plan : Plan :=\n  {init_txt}\n")
         out.append(f"/-- translated from `{CG}`:`ConjGrad.cg` (loop body per `bk_update_type`, helpers inlined) -/\n"
                    f"def cg_body_plan : Update → Plan\n{arms}\n")
         shapes = {u: s for u, (_, _, s) in bodies.items()}
